@@ -3,14 +3,14 @@
 ALL = "NoEarlyAck WellFormed NoDup SourceOrder AllDelivered AckMonotone AckBounded"
 FAULT = "NoUnexplainedEarlyAck WellFormed"
 def cfg(name, src="{s1}", tgt="{t1, t2}", maxid=2, maxbatch=2, maxwm=1, chancap=2, ackcap=1, faults=0,
-        srcfaults="FALSE", late="{}", invs=ALL, depth=None, seedfix="TRUE"):
+        srcfaults="FALSE", late="{}", invs=ALL, depth=None, seedfix="TRUE", idle=0, hold="FALSE"):
     sim = depth is not None
     out = ("INIT SimInit\nNEXT SimNext\n" if sim else "SPECIFICATION Spec\n")
     out += "CONSTANTS\n  Src = %s\n  Tgt = %s\n  MaxId = %d\n  MaxBatch = %d\n  MaxWm = %d\n  ChanCap = %d\n  AckCap = %d\n" % (
         src, tgt, maxid, maxbatch, maxwm, chancap, ackcap)
     out += "  MaxFaults = %d\n  SrcFaults = %s\n  LateTgt = %s\n  SeedFix = %s\n" % (faults, srcfaults, late, seedfix)
     if sim:
-        out += "  Depth = %d\n" % depth
+        out += "  Depth = %d\n  MaxIdle = %d\n  HoldClose = %s\n" % (depth, idle, hold)
     else:
         out += "SYMMETRY Sym\nINVARIANTS %s\n" % invs
     out += "CHECK_DEADLOCK FALSE\n"
@@ -33,9 +33,12 @@ cfg("c04_t1", faults=2, srcfaults="TRUE", invs=FAULT, maxid=2, maxwm=0)
 # ---- behaviour generation (RoutingSim)
 cfg("sim_c01", depth=7)
 cfg("sim_c01_t", src="{s1, s2}", maxid=3, maxwm=2, chancap=4, ackcap=2, depth=14)
+cfg("sim_c03", maxid=2, maxbatch=1, maxwm=2, depth=14)          # two watermarks: late first acks, clamps
 cfg("sim_c02", late="{t2}", depth=8)
 cfg("sim_c02b", src="{s1, s2}", maxid=1, depth=8)
+cfg("sim_c02i", maxid=3, maxwm=1, depth=9, idle=1)           # with one idle second (keep-alives fire)
 cfg("sim_c02_t", src="{s1, s2}", tgt="{t1, t2, t3}", late="{t3}", maxid=3, maxwm=2, chancap=4, ackcap=2, depth=16)
 cfg("sim_c04", faults=1, srcfaults="FALSE", depth=8)
 cfg("sim_c04s", faults=1, srcfaults="TRUE", maxwm=0, depth=7)
+cfg("sim_c04h", faults=1, srcfaults="FALSE", maxwm=1, depth=8, hold="TRUE")   # sender held in the close window
 cfg("sim_c04_t", src="{s1, s2}", faults=2, srcfaults="TRUE", maxid=3, maxwm=2, chancap=4, ackcap=2, depth=16)
